@@ -91,6 +91,7 @@ func printResult(res *HarnessResult, verbose bool) {
 		fmt.Printf("  %-40s checked=%d trivial=%d discharged=%d failed=%d unknown=%d\n", l, s.Checked, s.Trivial, s.Discharged, s.Failed, s.Unknown)
 	}
 	fmt.Printf("  covers: %v\n", res.Covers)
+	fmt.Printf("  counters: %v\n", res.Intercepts)
 	for _, n := range res.Notes {
 		fmt.Printf("  NOTE: %s\n", n)
 	}
